@@ -213,7 +213,10 @@ class Gen:
         """Is optional production `feat` taken here? (0 = simplest = no)"""
         if self.features is not None and feat not in self.features:
             return False
-        return self.t.draw(n, "feat." + feat) == n - 1
+        v = self.t.draw(n, "feat." + feat)
+        if feat in ("multi_source", "output_merge") and self.features is not None and "loop" in self.features:
+            return v >= n - 2      # grammar 2: several sources (linkMerge / pickValue) twice as often, same tape layout
+        return v == n - 1
 
     # -- literals ----------------------------------------------------------------------------------
     def literal(self, ty, label):
